@@ -17,7 +17,7 @@ EXTENDS Naturals, FiniteSets, Sequences, TLC
 CONSTANTS Procs,          \* contenders (live processes running the recovery loop)
           Dead,           \* owner id of the crashed previous authority
           Resident,       \* owner id of an authority that is alive and not a contender (or "none")
-          StartStates,    \* subset of {"none","dead_lock","dead_lock_meta","dead_partial","live_serving","live_starting"}
+          StartStates,    \* subset of {"none","dead_lock","dead_lock_meta","dead_partial","dead_meta","live_serving","live_starting"}
           MaxRetries,     \* bound on the retry loop (the code's 2 s deadline)
           DeadlineFails,  \* TRUE: the deadline may expire at any retry; FALSE: retries only (behaviour generation)
           AsImplemented,
@@ -50,6 +50,7 @@ InitFiles(s) ==
     [] s = "dead_lock"      -> lock = Full(Dead) /\ meta = AbsentF /\ serving = {}
     [] s = "dead_lock_meta" -> lock = Full(Dead) /\ meta = Meta(Dead) /\ serving = {}
     [] s = "dead_partial"   -> lock = Partial(Dead) /\ meta = AbsentF /\ serving = {}
+    [] s = "dead_meta"      -> lock = AbsentF /\ meta = Meta(Dead) /\ serving = {}      \* a cleaner died between its two renames
     [] s = "live_serving"   -> lock = Full(Resident) /\ meta = Meta(Resident) /\ serving = {Resident}
     [] s = "live_starting"  -> lock = Full(Resident) /\ meta = AbsentF /\ serving = {}
 
@@ -182,7 +183,7 @@ NeverStealLive == stolen = {}
 HolderOwnsLock == \A p \in holds : lock = Full(p)
 Safe == AtMostOne /\ NeverStealLive
 \* a store whose previous authority crashed becomes usable again: some contender gets the role
-DeadStart == start \in {"none", "dead_lock", "dead_lock_meta", "dead_partial"}
+DeadStart == start \in {"none", "dead_lock", "dead_lock_meta", "dead_partial", "dead_meta"}
 Usable == DeadStart => <>(\E p \in Procs : result[p] = "ok")
 \* nobody succeeds against a live resident authority
 Settled == \A p \in Procs : pc[p] \in {"failed", "serving", "gone"}
